@@ -159,17 +159,123 @@ func (g *optGen) script() string {
 	return b.String()
 }
 
+// Tagged call sites.  "A function given with AddFunction is called once per
+// call with the script's arguments in order": in a script without loops and
+// without user-defined functions every call site runs at most once, so when
+// every call of the host function h carries a literal of its own, no literal
+// may show up twice in the record of host calls - whatever position the call
+// is in (the subject of a switch, a case, the left side of `in`, a ternary,
+// an index, a hash key, a compound assignment ...).
+type tagGen struct {
+	c    *verifsim.Chooser
+	next int
+	kind map[int]string // tag -> position of the call
+}
+
+func (g *tagGen) call(position string) string {
+	g.next++
+	t := 100 + g.next
+	g.kind[t] = position
+	return fmt.Sprintf("h(%d)", t)
+}
+
+func (g *tagGen) statement() string {
+	c := g.c
+	n := func() string { return fmt.Sprint(100 + c.Intn(12)) } // (may equal a tag's value: cases that match)
+	switch c.Intn(18) {
+	case 0:
+		return "r = " + g.call("assignment") + ";\n"
+	case 1:
+		return "if (" + g.call("if-condition") + " > " + n() + ") { y = " + g.call("then-branch") + "; } else { y = " + g.call("else-branch") + "; }\n"
+	case 2:
+		return "switch (" + g.call("switch-subject") + ") { case " + n() + " { y = 1; } case " + n() + " { y = 2; } case " + n() + " { y = 3; } default { y = " + g.call("default-branch") + "; } }\n"
+	case 3:
+		return "switch (" + n() + ") { case " + g.call("case-expression") + " { y = 1; } case " + g.call("case-expression") + " { y = 2; } default { y = 0; } }\n"
+	case 4:
+		return "r = " + g.call("left-of-in-range") + " in (" + n() + ".." + fmt.Sprint(112+c.Intn(6)) + ");\n"
+	case 5:
+		return "r = " + g.call("left-of-in-array") + " in [" + n() + ", " + g.call("array-member") + ", " + n() + "];\n"
+	case 6:
+		return "r = " + g.call("ternary-condition") + " > " + n() + " ? " + g.call("ternary-arm") + " : " + g.call("ternary-arm") + ";\n"
+	case 7:
+		return "r = [" + g.call("array-member") + ", " + g.call("array-member") + "][" + g.call("index") + " % 2];\n"
+	case 8:
+		return "r = {" + g.call("hash-key") + ": " + g.call("hash-value") + ", \"k\": " + g.call("hash-value") + "};\n"
+	case 9:
+		return "r = " + g.call("left-of-&&") + " > " + n() + " && " + g.call("right-of-&&") + " > " + n() + ";\n"
+	case 10:
+		return "r = " + g.call("left-of-||") + " > " + n() + " || " + g.call("right-of-||") + " > " + n() + ";\n"
+	case 11:
+		return "r = " + g.call("operand") + " + " + g.call("operand") + " * " + g.call("operand") + " - " + g.call("operand") + ";\n"
+	case 12:
+		return "r = len(string(" + g.call("built-in-argument") + ")) + " + []string{"int", "float", "len"}[c.Intn(3)] + "(" + g.call("built-in-argument") + ");\n"
+	case 13:
+		return "r = 1; r " + []string{"+=", "-=", "*=", "/="}[c.Intn(4)] + " " + g.call("compound-assignment") + ";\n"
+	case 14:
+		return "r = " + []string{"-", "!", "√"}[c.Intn(3)] + g.call("prefix-operand") + ";\n"
+	case 15:
+		return "r = " + g.call("left-of-comparison") + " " + []string{"==", "!=", "<", "<=", ">", ">="}[c.Intn(6)] + " " + g.call("right-of-comparison") + ";\n"
+	case 16:
+		return "r = h(" + g.call("host-argument") + " + " + g.call("host-argument") + ");\n"
+	}
+	return "r = " + g.call("range-bound") + ".." + fmt.Sprint(120+c.Intn(3)) + ";\n"
+}
+
+func (g *tagGen) script() string {
+	var b strings.Builder
+	b.WriteString("r = 0; y = 0;\n")
+	for n := 1 + g.c.Intn(4); n > 0; n-- {
+		b.WriteString(g.statement())
+	}
+	if g.c.Bool() {
+		b.WriteString("return " + g.call("return") + ";\n")
+	} else {
+		b.WriteString("return r;\n")
+	}
+	return b.String()
+}
+
+// repeatedSite returns the first tagged call that occurs twice in a record
+// of host calls.
+func repeatedSite(trace []string, kind map[int]string) (string, int) {
+	seen := map[int]int{}
+	for _, t := range trace {
+		var tag int
+		if _, err := fmt.Sscanf(t, "h(INTEGER:%d)", &tag); err == nil && kind[tag] != "" {
+			seen[tag]++
+			if seen[tag] == 2 {
+				n := 0
+				for _, u := range trace {
+					if u == t {
+						n++
+					}
+				}
+				return kind[tag], n
+			}
+		}
+	}
+	return "", 0
+}
+
 func (p *c20) runOptDiff(c *verifsim.Chooser, st *Stats, render bool) *Outcome {
 	o := &Outcome{}
 	var text string
 	var globals, scoped []string
-	src := c.Intn(8)
+	src := c.Intn(11)
+	var tags map[int]string
 	switch {
+	case src >= 8:
+		tg := &tagGen{c: c, kind: map[int]string{}}
+		text = tg.script()
+		tags = tg.kind
+		globals, scoped = []string{"r", "y"}, nil
+		currentDesc.Store("optimizer differential: tagged call sites")
 	case src <= 4:
 		text = (&optGen{c: c}).script()
 		globals, scoped = analyseNames(text)
 		currentDesc.Store("optimizer differential: constant expressions")
 	case src <= 6:
+		_ = tags
 		sc := GenScript(c, GenCfg{Funcs: true, Faults: c.Bool(), Hashes: true})
 		text, globals, scoped = sc.Text, sc.Globals, sc.Scoped
 		currentDesc.Store("optimizer differential: generated script")
@@ -213,6 +319,14 @@ func (p *c20) runOptDiff(c *verifsim.Chooser, st *Stats, render bool) *Outcome {
 	}
 	all := append(append([]string{"r", "x", "i", "j"}, globals...), scoped...)
 	res := optDiffPlay(text, setX, plan, all, render)
+	if tags != nil {
+		for _, tr := range res.traces {
+			if pos, n := repeatedSite(tr, tags); pos != "" {
+				o.violate("C20/api-model", "call in "+pos+" made more than once", "the host function in the %s of a script without loops or functions was called %d times for one call in the script; host calls: [%s]\nscript:\n%s", pos, n, joinTrace(tr), text)
+				return o
+			}
+		}
+	}
 	if render {
 		o.Sample = map[string]interface{}{"mode": "optimizer differential", "script": text, "history": res.hist}
 	}
@@ -253,6 +367,7 @@ func (p *c20) runOptDiff(c *verifsim.Chooser, st *Stats, render bool) *Outcome {
 }
 
 type optDiffResult struct {
+	traces      [][]string // host calls of the optimized evaluator, per run
 	sig, detail string
 	frontEnds   bool // the difference is between Run and Execute, not between optimizer settings
 	prepFailed  bool
@@ -322,6 +437,7 @@ func optDiffPlay(text string, setX object.Object, plan []*c07Run, names []string
 			return
 		}
 		res.ran++
+		res.traces = append(res.traces, append([]string{}, sides[0].h.Trace...))
 		res.ticks += sides[0].ctx.Ticks + sides[1].ctx.Ticks
 		a, b := rs[0], rs[1]
 		what := "Execute"
